@@ -134,6 +134,27 @@ func c03g1ExcusedBy(facts []Fact) bool {
 	isGlob := func(v ssa.Value) bool {
 		return namedIs(c03StripIface(v).Type(), "glob.Glob") || namedIs(v.Type(), "glob.Glob")
 	}
+	// a verdict computed by a small repository predicate (`if isPlainHost(pattern)`): what its single return value says
+	// about its argument holds as well
+	for _, ft := range facts[:len(facts):len(facts)] {
+		call, ok := ft.Cond.(*ssa.Call)
+		if !ok {
+			continue
+		}
+		sc := call.Call.StaticCallee()
+		if sc == nil || !isRepoFn(sc) || len(sc.Blocks) == 0 || sc.Signature.Results().Len() != 1 {
+			continue
+		}
+		var rets []*ssa.Return
+		eachInstr(sc, func(i ssa.Instruction) {
+			if r, isR := i.(*ssa.Return); isR && r.Block() != sc.Recover {
+				rets = append(rets, r)
+			}
+		})
+		if len(rets) == 1 && len(rets[0].Results) == 1 {
+			facts = append(facts, appendCondFacts(nil, rets[0].Results[0], ft.Truth, 0)...)
+		}
+	}
 	none := map[ssa.Value]string{}
 	for _, ft := range facts {
 		if nn, ok := nilFact(ft, isGlobErr); ok && nn {
@@ -195,15 +216,31 @@ func (g *c03g1) does(i ssa.Instruction, depth int) bool {
 		return false
 	}
 	fns := funcsOf(call.Call.Value)
-	if len(fns) == 0 {
+	if len(fns) > 0 {
+		for _, f := range fns {
+			if !g.must(f, depth+1) {
+				return false
+			}
+		}
+		return true
+	}
+	// the test applied to a key is a parameter of a higher-order walk over the keys (`hostPatterns(tls, keep)`): the
+	// callers choose the mode by the function they pass. The functions that can reach the glob matcher are the glob
+	// mode's: each of them must consult it (or be excused) on every path; the others are the other mode's tests.
+	if _, isParam := call.Call.Value.(*ssa.Parameter); !isParam {
 		return false
 	}
-	for _, f := range fns {
+	nGlob := 0
+	for _, f := range c03CalleesOf(call.Call.Value) {
+		if !mayExec(f, c03IsGlobMatch, 1) {
+			continue
+		}
+		nGlob++
 		if !g.must(f, depth+1) {
 			return false
 		}
 	}
-	return true
+	return nGlob > 0
 }
 
 func (g *c03g1) must(fn *ssa.Function, depth int) bool {
@@ -1087,8 +1124,9 @@ func c03ResetOnTableChange(c *Ctx, cell ssa.Value) bool {
 			}
 			n++
 			before := false
+			resets := liftMust(isReset, 1) // also through a repository helper that empties the memo on all of its paths
 			eachInstr(ff, func(j ssa.Instruction) {
-				if isReset(j) && dominatesInstr(j, i) {
+				if resets(j) && dominatesInstr(j, i) {
 					before = true
 				}
 			})
